@@ -5,7 +5,7 @@ import statelib
 from framework import Unit
 from props.c02 import mk_state, set_reg, b
 
-PROPS_FILES = ['C03', 'C03fam']
+PROPS_FILES = ['C03', 'C03fam', 'C03priv']
 IMPORTS = 'From Gen Require Import enums core exec.'
 SPEC_IMPORTS = ('From ArmV Require Import Spec.Pseudocode Spec.Arch Spec.MachineView Spec.BlockTransfer Spec.Hub Spec.Memory.')
 
@@ -232,10 +232,13 @@ def units():
     thms = ['C03_LDM', 'C03_STM', 'C03_lowest_total', 'C03_flat_ictx', 'C03_flat_rset', 'C03_flat_rd', 'C03_flat_wr']
     needs = ['opcodes.abstract_opcodes.ldm_arm.LdmArm.execute', 'opcodes.abstract_opcodes.stm.Stm.execute']
     fam_thms = ['C03_LDM_thumb', 'C03_LDMDA', 'C03_LDMDB', 'C03_LDMIB', 'C03_POP_arm', 'C03_POP_thumb', 'C03_STMDA', 'C03_STMDB',
-                'C03_STMIB', 'C03_PUSH', 'C03_lowest_code']
+                'C03_STMIB', 'C03_PUSH', 'C03_lowest_code', 'C03_RFE', 'C03_SRS_arm', 'C03_SRS_thumb', 'C03_LDM_exception_return',
+                'C03_LDM_user_registers', 'C03_STM_user_registers']
     fam_needs = ['opcodes.abstract_opcodes.%s.%s.execute' % (m, c) for m, c in
                  (('ldm_thumb', 'LdmThumb'), ('ldmda', 'Ldmda'), ('ldmdb', 'Ldmdb'), ('ldmib', 'Ldmib'), ('pop_arm', 'PopArm'),
-                  ('pop_thumb', 'PopThumb'), ('stmda', 'Stmda'), ('stmdb', 'Stmdb'), ('stmib', 'Stmib'), ('push', 'Push'))]
+                  ('pop_thumb', 'PopThumb'), ('stmda', 'Stmda'), ('stmdb', 'Stmdb'), ('stmib', 'Stmib'), ('push', 'Push'), ('rfe', 'Rfe'),
+                  ('srs_arm', 'SrsArm'), ('srs_thumb', 'SrsThumb'), ('ldm_exception_return', 'LdmExceptionReturn'),
+                  ('ldm_user_registers', 'LdmUserRegisters'), ('stm_user_registers', 'StmUserRegisters'))]
     return [Unit('block', thms, ['Proofs/BlockProofs.v', 'Proofs/MemProofs.v', 'Proofs/LSProofs.v'], needs, cases, IMPORTS, SPEC_IMPORTS),
-            Unit('family', fam_thms, ['Proofs/BlockProofs2.v', 'Proofs/BlockProofs3.v', 'Proofs/LowestSweep.v'], fam_needs, family_cases, IMPORTS, SPEC_IMPORTS + '\nFrom ArmV Require Import Spec.Exceptions Spec.BlockFamily.'),
+            Unit('family', fam_thms, ['Proofs/BlockProofs2.v', 'Proofs/BlockProofs3.v', 'Proofs/LowestSweep.v', 'Proofs/ReturnProofs2.v'], fam_needs, family_cases, IMPORTS, SPEC_IMPORTS + '\nFrom ArmV Require Import Spec.Exceptions Spec.BlockFamily.'),
             Unit('abort', [], [], [], abort_cases, IMPORTS, SPEC_IMPORTS + '\nFrom ArmV Require Import Spec.Exceptions Spec.BlockFamily Corr.MpuSpecRun.')]
